@@ -246,6 +246,8 @@ pub struct Gen<'a> {
     /// pool 0 with one context: a future that has been polled is awaited to completion
     /// (nothing else could ever run the queue its poll has claimed)
     pub no_abandon: bool,
+    /// pool 0 with several contexts: futures are only ever polled once at a time (PollOnce), never waited for
+    pub no_await: bool,
     pub rng: &'a mut Rng,
     next_id: u32,
     pub n_gates: usize,
@@ -266,7 +268,7 @@ enum HK {
 
 impl<'a> Gen<'a> {
     pub fn new(rng: &'a mut Rng, n_objs: usize) -> Gen<'a> {
-        Gen { no_abandon: false, rng, next_id: 0, n_gates: 0, n_handles: 0, n_objs, obj_lo: 0 }
+        Gen { no_abandon: false, no_await: false, rng, next_id: 0, n_gates: 0, n_handles: 0, n_objs, obj_lo: 0 }
     }
     pub fn id(&mut self) -> u32 {
         let i = self.next_id;
@@ -410,6 +412,11 @@ impl<'a> Gen<'a> {
                 if self.no_abandon {
                     wts[1] = 0;
                 }
+                if self.no_await {
+                    wts[0] = 0;
+                    wts[4] = 0;
+                    wts[1] += 3;
+                }
                 let c = self.rng.weighted(&wts);
                 let kk = match c {
                     0 => OpKind::Await { h },
@@ -437,6 +444,10 @@ impl<'a> Gen<'a> {
             let mut wt = [w.desync, w.sync, w.try_sync, w.future_desync, w.after, w.future_sync, w.suspend, w.drop_obj, w.open_gate, w.yield_, if held.is_empty() { 0 } else { w.handle_use }];
             if pool0_sync_only {
                 wt[4] = 0;
+                wt[5] = 0;
+                wt[6] = 0;
+            }
+            if self.no_await {
                 wt[5] = 0;
                 wt[6] = 0;
             }
@@ -582,17 +593,20 @@ pub fn gen_general(rng: &mut Rng, p: &Profile) -> Program {
     let mut n_threads = rng.range(p.threads.0, p.threads.1 + big as u64) as usize;
     // pool 0: only the shapes for which something is promised
     let mut sync_only = false;
+    let mut no_await = false;
     if pool_max == 0 {
-        if rng.permille(500) {
-            sync_only = true;
-        } else {
-            n_threads = 1;
+        match rng.weighted(&[4, 3, 3]) {
+            0 => sync_only = true,
+            1 => n_threads = 1,
+            // several contexts that poll futures once and walk away; whoever syncs takes the queue over
+            _ => no_await = true,
         }
     }
     let faults = gen_faults(rng, p.faults);
     let prespawn = pool_max > 0 && rng.permille(p.prespawn_permille);
     let mut g = Gen::new(rng, n_objs);
-    g.no_abandon = pool_max == 0 && !sync_only;
+    g.no_abandon = pool_max == 0 && !sync_only && !no_await;
+    g.no_await = no_await;
     let mut threads = vec![];
     for _ in 0..n_threads {
         let n_ops = g.rng.range(p.ops.0, p.ops.1 + if big { 3 } else { 0 }) as usize;
